@@ -1,2 +1,3 @@
-/- stub: line-protocol driver for C13 (to be written) -/
-def main : IO Unit := pure ()
+/- drv_c13: line-protocol driver of the dependency / compile-time-computability model (property C13); see Drv/C11Lib.lean. -/
+import UtapModel.Drv.C11Lib
+def main : IO Unit := UtapModel.EffectDrv.driverMain
